@@ -857,6 +857,44 @@ impl Interp {
                 let h = live_bytes() - before;
                 (Slot::Qv(q, h), ok)
             }
+            // `qvchain <h> …`: collected from an exact-size header of `h` values chained with a filtered rest (the
+            // size hint has a positive lower bound and no upper bound); `qvnf <k> …`: collected / extended from a
+            // *non-fused* source that answers None after `k` values and would go on afterwards if polled again
+            "qvchain" => {
+                let h: usize = args[0].parse().unwrap();
+                let vals: Vec<i64> = args[1..].iter().map(|x| x.parse::<i128>().unwrap() as i64).collect();
+                let h = h.min(vals.len());
+                let before = live_bytes();
+                let q: QVector = vals[..h].iter().copied().chain(vals[h..].iter().copied().filter(|_| true)).collect();
+                let hp = live_bytes() - before;
+                (Slot::Qv(q, hp), ok)
+            }
+            "qvnf" | "qvnfext" => {
+                let k: usize = args[0].parse().unwrap();
+                let vals: Vec<i64> = args[1..].iter().map(|x| x.parse::<i128>().unwrap() as i64).collect();
+                let k = k.min(vals.len());
+                let mut i = 0usize;
+                let mut gave_none = false;
+                let src = std::iter::from_fn(|| {
+                    if i == k && !gave_none {
+                        gave_none = true;
+                        return None;
+                    }
+                    let r = vals.get(i).copied();
+                    i += 1;
+                    r
+                });
+                let before = live_bytes();
+                let q: QVector = if kind == "qvnf" {
+                    src.collect()
+                } else {
+                    let mut b = QVectorBuilder::new();
+                    b.extend(src);
+                    b.build()
+                };
+                let hp = live_bytes() - before;
+                (Slot::Qv(q, hp), ok)
+            }
             "qvpush" | "qvext" => {
                 let vals: Vec<i128> = args[1..].iter().map(|x| x.parse().unwrap()).collect();
                 let before = live_bytes();
@@ -1134,6 +1172,36 @@ impl Interp {
                     "set" => b.set(u(0), args[1] == "1"),
                     "set_bits" => b.set_bits(u(0), u(1), args[2].parse().unwrap()),
                     "extend_bools" => b.extend(args.iter().map(|x| *x == "1")),
+                    // the same from a source that is not fused (None after args[0] items, more if polled again)
+                    // and has no exact size hint
+                    "extend_bools_nf" => {
+                        let k: usize = args[0].parse().unwrap();
+                        let v: Vec<bool> = args[1..].iter().map(|x| *x == "1").collect();
+                        let (mut i, mut gave) = (0usize, false);
+                        b.extend(std::iter::from_fn(|| {
+                            if i == k.min(v.len()) && !gave {
+                                gave = true;
+                                return None;
+                            }
+                            let r = v.get(i).copied();
+                            i += 1;
+                            r
+                        }));
+                    }
+                    "extend_pos_nf" => {
+                        let k: usize = args[0].parse().unwrap();
+                        let v: Vec<usize> = args[1..].iter().map(|x| x.parse::<usize>().unwrap()).collect();
+                        let (mut i, mut gave) = (0usize, false);
+                        b.extend(std::iter::from_fn(|| {
+                            if i == k.min(v.len()) && !gave {
+                                gave = true;
+                                return None;
+                            }
+                            let r = v.get(i).copied();
+                            i += 1;
+                            r
+                        }));
+                    }
                     "extend_pos" => b.extend(args.iter().map(|x| x.parse::<usize>().unwrap())),
                     "roundtrip" => {
                         let tmp = std::mem::take(b);
